@@ -729,7 +729,14 @@ impl VectoredIO {
             }
             match reader.read(buf) {
                 Ok(0) => break,
-                Ok(n) => total += n,
+                Ok(n) => {
+                    total += n;
+                    if n < buf.len() {
+                        // short read: filling the next buffer would leave a gap, and the
+                        // returned count would no longer describe a contiguous prefix
+                        break;
+                    }
+                }
                 Err(e) => return if total > 0 { Ok(total) } else { Err(e) },
             }
         }
@@ -745,7 +752,13 @@ impl VectoredIO {
                 continue;
             }
             match writer.write(buf) {
-                Ok(n) => total += n,
+                Ok(n) => {
+                    total += n;
+                    if n < buf.len() {
+                        // short write: stop here, the caller resumes after `total` bytes
+                        break;
+                    }
+                }
                 Err(e) => return if total > 0 { Ok(total) } else { Err(e) },
             }
         }
